@@ -15,7 +15,7 @@ func init() {
 			{name: "generated-programs", pkg: "e2", run: "^TestPropC05Gen$", shards: 8, checks: 2, timeout: 30 * time.Minute},
 		}},
 		thorough: tier{jobs: []job{
-			{name: "std-chunking", run: "^TestProp$", shards: 16, checks: 3000, timeout: 120 * time.Minute},
+			{name: "std-chunking", run: "^TestProp$", shards: 16, checks: 6000, timeout: 120 * time.Minute},
 			{name: "all-splits", run: "^TestAllSplits$", shards: 16, checks: 1, timeout: 120 * time.Minute},
 			{name: "history-ring", run: "^TestPropRing$", shards: 16, checks: 600, timeout: 120 * time.Minute},
 			{name: "generated-programs", pkg: "e2", run: "^TestPropC05Gen$", shards: 16, checks: 30, timeout: 180 * time.Minute},
